@@ -17,25 +17,32 @@ CASE_TIMEOUT = 20
 TECHNIQUE = ("Lean 4 theorems about an executable model of the flat join kernels, the legacy re-slicing streamed drivers and "
              "the Session dispatch (Model/JoinFlat.lean, Model/JoinOld.lean) + differential correspondence of the compiled "
              "model with the real Session / ops functions + Python relational join as failing-input oracle")
-LEVEL_TEXT = ("Kernel-checked Lean theorems, for all key columns, payloads and chunk sizes (no size bound): each flat kernel "
-              "(left map right-unique / both-unique, inner map general / left-unique / both-unique, inner result size) "
-              "returns exactly the corresponding projection of Spec.leftJoin / Spec.innerJoin on sorted keys with the "
-              "uniqueness its flag asserts, with no out-of-bounds access; the legacy streamed left map and the legacy "
-              "streamed mapper return the same values as the flat forms for every chunk size >= 1; hence "
-              "Session.ordered_merge_left/right return, for every payload, the right payload at the unique matching row or "
-              "the empty value, identically in the array, field, sink and streamed forms; Session.ordered_merge_inner lists "
-              "exactly the matching pairs for every truthful flag combination (including the swapped left-unique kernel "
-              "used for right_unique); Session.get_index returns the matching target row or a marker >= INVALID_INDEX. The "
-              "model is tied to the code by differential execution on an exhaustive small scope and seeded random cases, "
-              "JIT / interpreted / bounds-checked.")
+LEVEL_TEXT = ("Kernel-checked Lean theorems, for all key columns and payloads (no size bound): each flat kernel (left map "
+              "right-unique / both-unique, inner map general / left-unique / both-unique, inner result size) returns exactly "
+              "the corresponding projection of Spec.leftJoin / Spec.innerJoin on sorted keys with the uniqueness its flag "
+              "asserts, with no out-of-bounds access and within its fuel; Session.ordered_merge_left/right in every "
+              "non-streamed form (ndarray or Field arguments, no sinks or Field sinks) return, for every numeric payload, the "
+              "payload at the unique matching row or the empty value, and these forms agree; Session.ordered_merge_inner "
+              "lists exactly the matching pairs for every truthful flag combination (including the swapped left-unique "
+              "kernel used for right_unique only); Session.get_index returns the matching target row or a marker >= "
+              "INVALID_INDEX. The streamed form (legacy re-slicing drivers, every chunk size) is covered by the "
+              "correspondence only. The model is tied to the code by differential execution on an exhaustive small scope "
+              "and seeded random cases, JIT / interpreted / bounds-checked.")
 LEVEL_NOTE = ("The theorems are about the Lean model with the fixes D17, NC19a, NC19b, NC19c applied (fixes/*.patch; on the "
-              "unfixed tree the check reports the witnesses in corpus/C19 as violations). Open finding NC19d (ordered_merge_* "
-              "reject an IndexedStringField payload) is modelled as found and excluded from the ordered_merge theorems by "
-              "the hypothesis that payloads are numeric. Session.merge_left/right/inner delegate the join to pandas.merge, "
-              "which is a parameter of the model (assumed to return the relational join): for these entry points the "
-              "theorems cover the mapping of the payloads only, the join itself is exercised by the correspondence. Payload "
-              "values are unbounded Int in the model; dtype behaviour (int32/float64 payloads, fixed-string keys) is "
-              "exercised by the correspondence only.")
+              "unfixed tree the check reports the witnesses in corpus/C19 as violations). Three statements are `_partial` "
+              "(ordered_merge_left_correct_partial, ordered_merge_right_correct_partial, forms_agree_partial): not proved "
+              "are (a) that the legacy streamed drivers generate_ordered_map_to_left_right_unique_streamed_old and "
+              "ordered_map_valid_stream_old equal the flat kernels for every chunk size (the streamed form of "
+              "ordered_merge_left), (b) ndarray sinks; both are modelled and checked by the correspondence for chunk sizes "
+              "1..6 (and others in the random stream) on the exhaustive scope. Open finding NC19d (ordered_merge_* reject an "
+              "IndexedStringField payload) is modelled as found, has Witness theorems, and is excluded from the "
+              "ordered_merge theorems by their restriction to numeric payloads. Session.merge_left/right/inner delegate the "
+              "join to pandas.merge, which is a parameter of the model (assumed to return the relational join): no theorem "
+              "is stated for them; the mapping helpers they use are proved in C04 and the whole call is compared with the "
+              "relational-join oracle by the correspondence (merge_inner as a multiset of pairs: pandas does not keep the "
+              "order of duplicate right rows). Session.join is modelled and compared, no theorem. Payload values are "
+              "unbounded Int in the model; dtype behaviour (int32/float64 payloads, fixed-string keys) is exercised by the "
+              "correspondence only.")
 RULE = ("exhaustive: all pairs of non-decreasing key columns over a k-letter alphabet with length <= n (quick k=3,n=4; "
         "thorough k=4,n=5) x every flat kernel whose uniqueness assumption the pair satisfies x the streamed_old drivers "
         "with chunk sizes 1..6 x Session.ordered_merge_left/right (array / field / field+sinks / array+sinks / streamed "
@@ -828,6 +835,11 @@ def match_finding(case, io, mode):
     if case["op"] in ("oml", "omr", "omi") and has_indexed(case) and isinstance(io, dict) and "err" in io:
         return "NC19d"
     return None
+
+
+def mode_diff_ok(case, ij, io, mode):
+    # NC19d raises numba's TypingError under the JIT and AttributeError when interpreted: the same refusal
+    return case["op"] in ("oml", "omr", "omi") and has_indexed(case) and "err" in ij and "err" in io
 
 
 def compare(case, io, mo, mode):
